@@ -92,6 +92,11 @@ def extended_class(cls, variant=0):
             """A switch that is on by default."""
             return rounds if graceful else -rounds
 
+        def drained(self) -> object:
+            """Hands back something awaitable that the owner resolves later; the command's answer is what str() makes of it."""
+            import asyncio
+            return asyncio.get_event_loop().create_future()
+
         def blank_doc(self, n: int = 0) -> int:
             ""
             return n
